@@ -64,6 +64,34 @@ class Ctx:
                 self.analysed[k] = analyze(db, b, self.models)
         return self.analysed[k]
 
+    def analysis_inl(self, cfg, key, entry_facts=None, split=False, keep=(), tag=""):
+        """Analysis of `key` with the crate's private (non-exported, unmodelled) helper functions inlined at their call sites,
+        so a method that was split into private helpers is judged as the code it runs.  split=True turns the loop-free normal CFG into a tree
+        (one return block per path, no merged states).  The analysed body carries `inlined` (list of helper calls that were expanded)."""
+        from .mirxf import inline_calls, treeify
+        from .models import MODELS, PURE_KEYS
+        k = (cfg, key, "inl", split, tuple(sorted(keep)), tag)
+        if k not in self.analysed:
+            db = self.db(cfg)
+            b = db.get(key)
+            if b is None:
+                self.analysed[k] = None
+            else:
+                skip = set(MODELS) | set(PURE_KEYS) | set(keep)
+
+                def pred(cb, term, chain):
+                    return cb["key"] not in skip and not (cb.get("vis") or {}).get("exported", True)
+                b2 = inline_calls(db, b, pred)
+                if split:
+                    b2 = treeify(b2)
+                self.analysed[k] = analyze(db, b2, self.models, entry_facts)
+        return self.analysed[k]
+
+    def helpers_inlined_everywhere(self, cfg):
+        """Keys of private helper functions: their code is judged inside each caller (analysis_inl)."""
+        db = self.db(cfg)
+        return {b["key"] for b in db.bodies if b["kind"] in ("Fn", "AssocFn") and not (b.get("vis") or {}).get("exported", True)}
+
     def cleanup(self):
         for b in self.builds.values():
             b.cleanup()
